@@ -6,6 +6,7 @@ package main
 import (
 	"fmt"
 	"os"
+	"runtime"
 	"path/filepath"
 	"sort"
 	"strings"
@@ -331,6 +332,16 @@ func (s *Sim) checkStop(n *SendNode) {
 				kind = "graceful"
 			}
 			s.violate("C16", "stop-did-not-terminate", "%s stop requested at step %d; the sender has not exited %s of fault-free simulated time later", kind, s.ob.stopStep, s.sc.Settle)
+			if *flagSUTLog {
+				buf := make([]byte, 1<<20)
+				buf = buf[:runtime.Stack(buf, true)]
+				for _, g := range strings.Split(string(buf), "\n\n") {
+					if strings.Contains(g, "sts/client.") {
+						fmt.Fprintln(os.Stderr, g)
+						fmt.Fprintln(os.Stderr)
+					}
+				}
+			}
 		}
 		return
 	}
@@ -364,8 +375,11 @@ func (s *Sim) checkStop(n *SendNode) {
 			s.violate("C16", "confirmed-but-not-recorded", "%s was confirmed by the receiver before the graceful stop completed but the queue cache on disk does not show it done", name)
 		}
 	}
-	// in the fault-free population a graceful stop delivers everything the scans found
-	if s.sc.FaultFree && s.nFaults == 0 {
+	// in the fault-free population a graceful stop delivers everything the scans
+	// found (a polling give-up - the configured number of "not found" answers
+	// while the receiver is still validating - counts as a failure here too:
+	// sts does not start retries once a stop is under way)
+	if s.sc.FaultFree && s.nFaults == 0 && s.noRequestFailed() {
 		found := map[string]bool{}
 		for _, sc := range s.ob.scans {
 			if sc.Inc == n.inc {
